@@ -47,6 +47,51 @@ def stream_level(ctx, dobj, d, pkts, obs_list, route):
             items = [xdoc.typed_item(d, k, v) for k, v in it.items()]
         if items != o["items"]:
             return f"item {i}: values differ from parsing the packet on its own"
+    ctx.tally("streams_rerun_on_reused_definition")
+    return reuse_level(dobj, d, data, len(pkts))
+
+
+def reuse_level(dobj, d, data, npk):
+    """A loaded definition serves any number of generators, also ones started with another root container and advanced in between:
+    what each yields is a function of (document, root, stream) only.  The reference is the stream's result with the root named
+    explicitly (just compared with the specification's per-packet results); generators that rely on the definition's own root must give
+    the same, before, while and after a generator with a different root runs on the same definition object."""
+    from space_packet_parser.exceptions import UnrecognizedPacketTypeError
+
+    def norm(it):
+        if isinstance(it, UnrecognizedPacketTypeError):
+            return ("unrec", [(k, repr(v), repr(getattr(v, "raw_value", None))) for k, v in (it.partial_data or {}).items()])
+        return ("ok", bytes(it.raw_data), [(k, repr(v), repr(getattr(v, "raw_value", None))) for k, v in it.items()])
+
+    def drain(gen, limit):
+        out = []
+        try:
+            for it in gen:
+                out.append(norm(it))
+                if len(out) > limit:
+                    break
+        except Exception as e:  # noqa: BLE001
+            out.append(("raised", type(e).__name__))
+        return out
+    others = [c for c in d["corder"] if c != d["root"]]
+    if not others:
+        return None
+    other = others[len(data) % len(others)]
+    lim = npk + 2
+    with warnings.catch_warnings():
+        warnings.simplefilter("ignore")
+        want = drain(dobj.packet_generator(io.BytesIO(data), yield_unrecognized_packet_errors=True, root_container_name=d["root"]), lim)
+        g_def = dobj.packet_generator(io.BytesIO(data), yield_unrecognized_packet_errors=True)
+        first = []
+        if len(want) > 1:
+            first = drain(iter([next(g_def)]), lim)
+        drain(dobj.packet_generator(io.BytesIO(data), yield_unrecognized_packet_errors=True, root_container_name=other), lim)
+        rest = drain(g_def, lim)
+        if first + rest != want:
+            return f"reuse: a generator on the definition's own root changed what it yields when another generator rooted at {other} ran in between"
+        again = drain(dobj.packet_generator(io.BytesIO(data), yield_unrecognized_packet_errors=True), lim)
+        if again != want:
+            return f"reuse: after a generator rooted at {other}, a new generator on the definition's own root no longer gives the same result"
     return None
 
 
